@@ -100,8 +100,7 @@ def check(prog, rep):
     if not ktuple:
         raise AnalysisError("add_cell: the (x, y, z) key tuple was not found")
     selfskip = [n for fn in qnodes for n in ast.walk(fn) if isinstance(n, ast.If) and isinstance(n.body[0], ast.Continue)]
-    r1.add("only-self-skipped", len(selfskip) == 1 and U(selfskip[0].test) in ("atom == atom2", "atom2 == atom", "atom is atom2", "atom2 is atom"),
-           f"atoms skipped by the query: {[U(s.test) for s in selfskip]}", wg)
+    rep.guarded(rule_model_queries, prog, rep, sorted(sizes))
     # the query must read the live cell map: no instance state is written by the query (no memoised neighbourhoods)
     writes = []
     for fn in qnodes:
@@ -150,6 +149,63 @@ def check(prog, rep):
     r2.add("epoch-end|cleanup", bool(hr_calls) and hr_calls[-1] == "hydrogen_routines.cleanup",
            f"calls on the optimisation/debump objects in non_trivial, in order: {hr_calls}; cleanup must be the last",
            f"pdb2pqr/main.py:{nt.lineno} (non_trivial)")
+
+
+def rule_model_queries(prog, rep, sizes):
+    """add_cell / remove_cell / get_near_cells are evaluated on a model set of atoms (coordinates on and around cell
+    boundaries, negative, zero, far out), for every cell size in use, before and after a series of moves: every pair closer
+    than the cell size must be found from both sides, the query atom itself never."""
+    import math
+    from ..guards import Flow, Obj
+    from ..objinterp import ObjRunner
+    r = rep.rule("R5", "model atom set: every pair closer than the cell size is returned by the query (both directions, after moves too)", floor=2)
+    where = "pdb2pqr/cells.py (Cells.add_cell / remove_cell / get_near_cells)"
+    for size in sizes:
+        grid = [-2.5, -2.0, -1.0, -0.999, -0.5, -0.001, 0.0, 0.001, 0.5, 0.999, 1.0, 1.5, 2.0, 2.49]
+        pts = []
+        state = 12345
+        for n_ in range(70):
+            c = []
+            for _ in range(3):
+                state = (1103515245 * state + 12345) % (2 ** 31)
+                c.append(grid[state % len(grid)] * size + (0.0 if n_ % 3 else ((state >> 8) % 7 - 3) * 0.13))
+            pts.append(c)
+        pts += [[1000.0 * size, -1000.0 * size, 0.0], [1000.0 * size + 0.4 * size, -1000.0 * size, 0.3 * size]]
+        atoms = [Obj({"__class__": "Atom", "name": f"A{i}", "x": p_[0], "y": p_[1], "z": p_[2], "cell": None}) for i, p_ in enumerate(pts)]
+        run = ObjRunner(prog, "cells.py")
+        try:
+            cm = run.new("Cells", size)
+            for a in atoms:
+                run.call(cm, "add_cell", a)
+
+            def missing():
+                out, selfhits = [], 0
+                res = {a["name"]: run.call(cm, "get_near_cells", a) for a in atoms}
+                for a in atoms:
+                    got = res[a["name"]]
+                    if any(x is a for x in got):
+                        selfhits += 1
+                    for b in atoms:
+                        if b is not a and math.dist((a["x"], a["y"], a["z"]), (b["x"], b["y"], b["z"])) < size and not any(x is b for x in got):
+                            out.append((a["name"], b["name"]))
+                return out, selfhits
+
+            m0, s0 = missing()
+            # a series of moves across cell boundaries and the zero planes, bracketed the way the movers do it
+            for k, a in enumerate(atoms[:25]):
+                run.call(cm, "remove_cell", a)
+                a["x"], a["y"], a["z"] = -a["y"] + 0.37 * k % size, a["z"] - 0.5 * size, a["x"] * -0.5
+                run.call(cm, "add_cell", a)
+            m1, s1 = missing()
+        except Flow as fl:
+            r.bad(f"model|size={size}|runs", f"the cell map stops with {fl.value} on the model atom set", where)
+            continue
+        n_pairs = sum(1 for i, a in enumerate(atoms) for b in atoms[i + 1:] if math.dist((a["x"], a["y"], a["z"]), (b["x"], b["y"], b["z"])) < size)
+        r.add(f"model|size={size}", not m0 and not m1 and not s0 and not s1,
+              f"cell size {size}: {len(atoms)} atoms, {n_pairs} pairs within range after the moves" +
+              ("; all found from both sides, no atom returns itself" if not (m0 or m1 or s0 or s1) else
+               f"; NOT returned: {(m0 + m1)[:4]} ({len(m0)} before, {len(m1)} after the moves); atoms returning themselves: {s0 + s1}"), where)
+    r.info["methods_interpreted"] = sorted(set(run.calls))
 
 
 def _upper(expr, fn, consts, depth=0):
